@@ -118,3 +118,176 @@ theorem trock_mono_depth (l : List (Rat × Rat)) (hl : PosLayers l) (t0 tmax d d
 #print axioms trock_le_tmax
 #print axioms trock_mono_depth
 end GeoVerif
+
+namespace GeoVerif
+
+/-! ### depth cap -/
+
+theorem cappedDepth_eq_min (t0 tmax depth : Rat) (l : List (Rat × Rat)) :
+    cappedDepth t0 tmax depth l = min depth (maxDepth t0 tmax l) := by
+  unfold cappedDepth
+  simp only
+  split
+  · rename_i h; rw [min_eq_right (le_of_lt h)]
+  · rename_i h; rw [min_eq_left (not_lt.mp h)]
+
+theorem trock_eq_tempAt_capped (t0 tmax depth : Rat) (l : List (Rat × Rat)) :
+    trock t0 tmax depth l = tempAt t0 l (cappedDepth t0 tmax depth l) := by
+  rw [cappedDepth_eq_min]; rfl
+
+/-! ### normalisation heuristics -/
+
+theorem normGradient_pos (g : Rat) : 0 < normGradient g := by
+  unfold normGradient
+  simp only
+  generalize (if 1 < g then g / 1000 else g) = g'
+  split
+  · norm_num
+  · rename_i h
+    have := not_lt.mp h
+    have : (0:Rat) < 1 / 1000000 := by norm_num
+    linarith
+
+theorem normGradient_id (g : Rat) (h1 : 1 / 1000000 ≤ g) (h2 : g ≤ 1) : normGradient g = g := by
+  unfold normGradient
+  have : ¬ 1 < g := not_lt.mpr h2
+  simp only [this, if_false]
+  rw [if_neg (not_lt.mpr h1)]
+
+theorem normGradient_per_km (g : Rat) (h : 1 < g) : normGradient g = g / 1000 := by
+  unfold normGradient
+  simp only [h, if_true]
+  rw [if_neg]
+  have : (1:Rat) / 1000 < g / 1000 := by
+    apply div_lt_div_of_pos_right h (by norm_num)
+  have : (1:Rat)/1000000 < 1/1000 := by norm_num
+  intro hc; linarith
+
+/-! ### percentage drawdown -/
+
+theorem tdp_start (p trock tinj : Rat) : tdpAt p trock tinj 0 = trock := by unfold tdpAt; ring
+
+theorem tdp_antitone_time (p trock tinj t t' : Rat) (hp : 0 ≤ p) (hT : tinj ≤ trock) (ht : t ≤ t') :
+    tdpAt p trock tinj t' ≤ tdpAt p trock tinj t := by
+  unfold tdpAt
+  have h1 : p * t ≤ p * t' := mul_le_mul_of_nonneg_left ht hp
+  have h2 : 0 ≤ trock - tinj := by linarith
+  nlinarith
+
+theorem tdp_le_trock (p trock tinj t : Rat) (hp : 0 ≤ p) (hT : tinj ≤ trock) (ht : 0 ≤ t) :
+    tdpAt p trock tinj t ≤ trock := by
+  have := tdp_antitone_time p trock tinj 0 t hp hT ht
+  rw [tdp_start] at this; exact this
+
+theorem tdp_antitone_rate (p p' trock tinj t : Rat) (hp : p ≤ p') (hT : tinj ≤ trock) (ht : 0 ≤ t) :
+    tdpAt p' trock tinj t ≤ tdpAt p trock tinj t := by
+  unfold tdpAt
+  have h1 : p * t ≤ p' * t := mul_le_mul_of_nonneg_right hp ht
+  have h2 : 0 ≤ trock - tinj := by linarith
+  nlinarith
+
+/-! ### weighted profile (single fracture): weights in [0,1], non-increasing -/
+
+theorem weighted_le_trock (w trock tinj : Rat) (hw : w ≤ 1) (hT : tinj ≤ trock) : weightedAt w trock tinj ≤ trock := by
+  unfold weightedAt
+  have : 0 ≤ trock - tinj := by linarith
+  nlinarith
+
+theorem weighted_ge_tinj (w trock tinj : Rat) (hw : 0 ≤ w) (hT : tinj ≤ trock) : tinj ≤ weightedAt w trock tinj := by
+  unfold weightedAt
+  have : 0 ≤ w * (trock - tinj) := mul_nonneg hw (by linarith)
+  linarith
+
+theorem weighted_mono (w w' trock tinj : Rat) (hw : w' ≤ w) (hT : tinj ≤ trock) :
+    weightedAt w' trock tinj ≤ weightedAt w trock tinj := by
+  unfold weightedAt
+  have : 0 ≤ trock - tinj := by linarith
+  nlinarith
+
+/-! ### redrilling by tiling -/
+
+theorem firstBelowFrom_spec (lim : Rat) (xs : List Rat) (k : Nat) (h : firstBelowFrom lim xs = some k) :
+    k < xs.length ∧ xs.getD k 0 < lim ∧ ∀ j, j < k → ¬ xs.getD j 0 < lim := by
+  induction xs generalizing k with
+  | nil => simp [firstBelowFrom] at h
+  | cons x xs ih =>
+    simp only [firstBelowFrom] at h
+    split at h
+    · rename_i hx
+      simp only [Option.some.injEq] at h
+      subst h
+      exact ⟨by simp, by simpa using hx, fun j hj => by omega⟩
+    · rename_i hx
+      cases hfb : firstBelowFrom lim xs with
+      | none => simp [hfb] at h
+      | some k' =>
+        simp only [hfb, Option.map_some, Option.some.injEq] at h
+        subst h
+        obtain ⟨h1, h2, h3⟩ := ih k' hfb
+        refine ⟨by simp; omega, by simpa using h2, ?_⟩
+        intro j hj
+        cases j with
+        | zero => simpa using hx
+        | succ j' => simpa using h3 j' (by omega)
+
+theorem firstBelowFrom_none (lim : Rat) (xs : List Rat) (h : firstBelowFrom lim xs = none) :
+    ∀ j, j < xs.length → ¬ xs.getD j 0 < lim := by
+  induction xs with
+  | nil => intro j hj; simp at hj
+  | cons x xs ih =>
+    simp only [firstBelowFrom] at h
+    split at h
+    · simp at h
+    · rename_i hx
+      have hn : firstBelowFrom lim xs = none := by
+        cases hfb : firstBelowFrom lim xs with
+        | none => rfl
+        | some k => simp [hfb] at h
+      intro j hj
+      cases j with
+      | zero => simpa using hx
+      | succ j' => simpa using ih hn j' (by simpa using hj)
+
+theorem tileTo_length (xs : List Rat) (k n : Nat) : (tileTo xs k n).length = n := by simp [tileTo]
+
+theorem tileTo_getD (xs : List Rat) (k n j : Nat) (hj : j < n) : (tileTo xs k n).getD j 0 = xs.getD (j % k) 0 := by
+  simp [tileTo, List.getD_eq_getElem?_getD, List.getElem?_range hj]
+
+/-- after redrilling no produced temperature is below the drawdown limit -/
+theorem redrill_respects_limit (xs : List Rat) (dd : Rat) (j : Nat) (hj : j < xs.length) :
+    ¬ (redrill xs dd).1.getD j 0 < (1 - dd) * xs.headD 0 ∨ firstBelowFrom ((1 - dd) * xs.headD 0) xs = some 0 := by
+  unfold redrill
+  simp only
+  cases hfb : firstBelowFrom ((1 - dd) * xs.headD 0) xs with
+  | none =>
+    left
+    have : firstBelow ((1 - dd) * xs.headD 0) xs = 0 := by unfold firstBelow; rw [hfb]; rfl
+    simp only [this, Nat.lt_irrefl, if_false]
+    exact firstBelowFrom_none _ xs hfb j hj
+  | some k =>
+    by_cases hk : k = 0
+    · right; rw [hk]
+    · left
+      have hk0 : 0 < k := Nat.pos_of_ne_zero hk
+      have : firstBelow ((1 - dd) * xs.headD 0) xs = k := by unfold firstBelow; rw [hfb]; rfl
+      simp only [this, hk0, if_true]
+      rw [tileTo_getD xs k xs.length j hj]
+      obtain ⟨_, _, h3⟩ := firstBelowFrom_spec _ xs k hfb
+      exact h3 (j % k) (Nat.mod_lt _ hk0)
+
+/-- the profile restarts from its beginning at each redrilling -/
+theorem redrill_restarts (xs : List Rat) (dd : Rat) (k : Nat) (hk : 0 < k)
+    (hfb : firstBelowFrom ((1 - dd) * xs.headD 0) xs = some k) (j : Nat) (hj : j < xs.length) :
+    (redrill xs dd).1.getD j 0 = xs.getD (j % k) 0 ∧ (redrill xs dd).2 = xs.length / k := by
+  unfold redrill
+  have : firstBelow ((1 - dd) * xs.headD 0) xs = k := by unfold firstBelow; rw [hfb]; rfl
+  simp only [this, hk, if_true]
+  exact ⟨tileTo_getD xs k xs.length j hj, trivial⟩
+
+theorem redrill_none (xs : List Rat) (dd : Rat) (h : firstBelowFrom ((1 - dd) * xs.headD 0) xs = none) :
+    redrill xs dd = (xs, 0) := by
+  unfold redrill
+  have : firstBelow ((1 - dd) * xs.headD 0) xs = 0 := by unfold firstBelow; rw [h]; rfl
+  simp only [this, Nat.lt_irrefl, if_false]
+
+end GeoVerif
